@@ -6,7 +6,7 @@ REQUIRED = ["CifModel.C04_inv_init", "CifModel.C04_inv_sql", "CifModel.C04_inv_s
             "CifModel.remove_last_item_removes_loop", "CifModel.scalar_category_cannot_be_given",
             "CifModel.scalar_category_cannot_be_taken", "CifModel.destroy_removes_subtree_only", "CifModel.cifs_independent", "CifModel.names_returned_as_created_frame",
             "CifModel.names_returned_as_created_items", "CifModel.set_value_new_item_goes_to_scalar", "CifModel.C04_refines_get_block",
-            "CifModel.C04_refines_create_block", "CifModel.C04_refines_all_blocks", "CifModel.C04_refines_get_frame", "CifModel.C04_refines_create_loop", "CifModel.C04_refines_add_packet", "CifModel.C04_refines_get_value", "CifModel.C04_refines_set_value", "CifModel.C04_refines_remove_item", "CifModel.C04_refines_destroy_loop", "CifModel.C04_get_value_column", "CifModel.C04_add_packet_is_spec_packet",
+            "CifModel.C04_refines_create_block", "CifModel.C04_refines_all_blocks", "CifModel.C04_refines_get_frame", "CifModel.C04_refines_create_loop", "CifModel.C04_refines_add_packet", "CifModel.C04_refines_get_value", "CifModel.C04_refines_set_value", "CifModel.C04_refines_remove_item", "CifModel.C04_refines_destroy_loop", "CifModel.C04_refines_set_category", "CifModel.C04_refines_set_value_new", "CifModel.C04_refines_add_item", "CifModel.C04_refines_prune", "CifModel.C04_get_value_column", "CifModel.C04_add_packet_is_spec_packet",
             "CifModel.C04_cex_F30", "CifModel.C04_cex_F34_pinned",
             "CifModel.Store.schema_tables_link", "CifModel.Store.schema_triggers_link", "CifModel.Store.schema_sql_link",
             "CifModel.Store.schema_messages_link", "CifModel.Store.C05_paths_link"]
@@ -30,10 +30,12 @@ ASSUMPTIONS = [
 PARTIAL = [
     "C04_refines is proved op by op, not as one specStep over whole histories: get_block, create_block, get_all_blocks, get_frame commute with abs and "
     "agree in their results; in container-local form (absLoops = the loop list abs shows for a container; every other loop of the CIF unchanged): "
-    "create_loop and add_packet on success (failure: C05_atomic; extra hypotheses LoopNumsBelow / RowsBelow, stated but not yet part of the proved "
-    "invariant), set_value of an existing item, loop_destroy / remove_item of the last item (no extra hypothesis), remove_item with items left and the "
-    "query get_value (under completeness of the packets, which F30 breaks: C04_cex_F30). Not proved: set_value of a NEW item (add_scalar composition), "
-    "add_item, prune, set_category, destroy of blocks/frames, create_frame; result-code agreement of the failing cases with the Spec functions",
+    "create_loop (no extra hypothesis any more: loop numbers below next_loop_num is part of Inv), add_packet (hypothesis RowsBelow: not an "
+    "unconditional invariant of the model — see notes — but evaluated by the model driver on every state of every generated history), set_value of an "
+    "existing item, set_value of a new item (add_item count + exactly one new packet when the scalar loop had none), add_item, set_category, prune, "
+    "loop_destroy / remove_item of the last item (no extra hypothesis), remove_item with items left and the query get_value (under completeness of "
+    "the packets, which F30 breaks: C04_cex_F30). Not proved: create_frame, destroy of blocks/frames (need fuel-independence of absContainer), "
+    "agreement of the FAILURE codes with the Spec functions, one specStep over whole histories",
     "set_value_all_packets_or_new_scalar: the new-scalar half is proved only as 'goes through add_scalar' (set_value_new_item_goes_to_scalar)",
 ]
 LEVEL_TEXT = ("Proof (partial where stated): an executable relational model of the SQLite-backed store (every function of cif.c/container.c/loop.c/"
